@@ -643,6 +643,18 @@ def in_kernel_sample(cases, summary, limit):
     return res
 
 
+def merge_stats(acc, st):
+    for k, v in (st or {}).items():
+        if isinstance(v, dict):
+            d = acc.setdefault(k, {})
+            for kk, vv in v.items():
+                d[kk] = d.get(kk, 0) + vv
+        elif isinstance(v, int):
+            acc[k] = acc.get(k, 0) + v
+        else:
+            acc[k] = v
+
+
 def load_corpus():
     d = os.path.join(common.VERIF, "corpus", PID)
     cases = []
@@ -836,13 +848,29 @@ def main(tier, replay):
     run.dist["table"] = dict(cases=len(tcases), item_shapes=tstats.get("table_item_shapes"))
     common.info("C14: table %.1fs" % t.s())
     # 4. structured random messages
-    gcases, gstats = run_drive(drive, ["gen", "-seed", str(common.seed()), "-n", str(n_msg)])
-    run.check_messages(gcases)
+    gcases, gstats = [], {}
+    done, k = 0, 0
+    while done < n_msg:                       # in batches: bounded memory
+        n = min(2400, n_msg - done)
+        gc, gs = run_drive(drive, ["gen", "-seed", str(common.seed() + 7919 * k), "-n", str(n)])
+        run.check_messages(gc)
+        merge_stats(gstats, gs)
+        if k == 0:
+            gcases = gc[:600]                 # kept for samples / the in-kernel sample
+        done += n
+        k += 1
     run.dist["messages"] = gstats
     common.info("C14: messages %.1fs" % t.s())
     # 5. payload values
-    icases, istats = run_drive(drive, ["values", "-seed", str(common.seed()), "-n", str(n_val)])
-    run.check_values(icases)
+    istats = {}
+    done, k = 0, 0
+    while done < n_val:
+        n = min(12000, n_val - done)
+        ic, is_ = run_drive(drive, ["values", "-seed", str(common.seed() + 104729 * k), "-n", str(n)])
+        run.check_values(ic)
+        merge_stats(istats, is_)
+        done += n
+        k += 1
     run.dist["values"] = istats
     common.info("C14: values %.1fs" % t.s())
     # 6. malformed / mutated byte strings
